@@ -469,6 +469,10 @@ class Interp:
             return list(it)
         if isinstance(it, (set, frozenset)):
             return sorted(it, key=repr)
+        if isinstance(it, BufV) and it.length is not None and it.length <= 64:
+            return [Bits.source([self._src(it.start + k, i) for i in range(8)], False) for k in range(it.length)]
+        if isinstance(it, BytesV):
+            return [Bits.source(list(b), False) for b in it.bytes]
         return None
 
     # ------------------------------------------------------------------
